@@ -360,6 +360,11 @@ def run_script(sc, start_text=None, referer_text=None):
         if rest and not rest.startswith(b'CONNECT '):
             cu = client_urls[len(server.requests)] if len(server.requests) < len(client_urls) else None
             ev.append(project(server.addr[epid], rest, cu, proxy))
+    # the requests that opened tunnels through the proxy (https): CONNECT authority, with its own Host field
+    for head in getattr(server, 'tunnels', []):
+        blk = parse_block(head)
+        ev.append({'e': 'tunnel', 'target': blk['target'], 'hosts': [v for n, v in blk['fields'] if n == 'host'],
+                   'wf': bool(blk['wf'] and blk['method'] == 'CONNECT')})
     if kind == 'ok':
         outcome = 'ok'
     elif kind == 'hang':
